@@ -791,6 +791,21 @@ def blackman_sum_hypothesis(nmax: int) -> list[Fail]:
 # --------------------------------------------------------------------------
 def run_case(drv: Driver | None, case) -> tuple[list[Fail], str | None, bool]:
     """(monitor failures, model/implementation divergence, non-trivial?)"""
+    try:
+        return _run_case(drv, case)
+    except InfraError:
+        raise
+    except Exception as e:  # noqa: BLE001 -- the code under test raised where the property promises a value
+        import traceback
+        where = [f for f in traceback.extract_tb(e.__traceback__) if "/pulser" in f.filename]
+        if not where:
+            raise
+        loc = f"{Path(where[-1].filename).name}:{where[-1].name}"
+        return [Fail("real-code-raises", f"{type(e).__name__}: {str(e)[:100]} in {loc}",
+                     dict(kind=case["k"], error=type(e).__name__))], None, True
+
+
+def _run_case(drv: Driver | None, case) -> tuple[list[Fail], str | None, bool]:
     k = case["k"]
     with warnings.catch_warnings():
         warnings.simplefilter("ignore")
